@@ -38,6 +38,8 @@ def run_A(root, A, extra_options=None):
     def snap(obj, e):
         snapshot[id(obj)] = e["id"]
         for k in e["kids"]:
+            if k["kind"] == "alias":            # a re-exported name, not an object of this module
+                continue
             lst = getattr(obj, KIND_LIST[k["kind"]], None) or []
             for o in lst:
                 if getattr(o, "name", None) == k["name"] and id(o) not in snapshot:
